@@ -47,7 +47,7 @@ CLAIMS = {
               "unclamped value and return that same value in Ok or inside OutOfBounds; Alpha clamps colour and alpha separately; a generated witness "
               "crate lets rustc's trait solver decide that the contract traits actually apply to X, Alpha<X, T>, [X] and [Alpha<X, T>] for all 26 "
               "types and f32/f64 (an impl whose where-clause no component type satisfies makes is_within_bounds fall through Deref and ignore alpha). "
-              "Does not decide rounding of the HWB division (w/s + b/s may exceed 1 by an ulp). Round 5: a slice is within bounds iff every item is: the [T] impl ANDs in every item and leaves early only when every lane of the accumulator is false (BOUNDS-SLICE)."),
+              "Does not decide rounding of the HWB division (w/s + b/s may exceed 1 by an ulp). Round 5: a slice is within bounds iff every item is: the [T] impl ANDs in every item and leaves early only when every lane of the accumulator is false (BOUNDS-SLICE). Round 6: clamping a slice is the element-wise clamp_assign of the whole slice."),
         design_ref="DESIGN.md §3 C03",
     ),
     "C08": dict(
@@ -59,7 +59,7 @@ CLAIMS = {
               "unpremultiply∘premultiply are discharged on the code's own normal forms; all 33 Blend and 12 Compose dispatchers must pass "
               "the function named after the method with source and backdrop in order; the three constructors of BlendInput fill `color` with the "
               "straight colour, `color_pre` with the premultiplied one and `alpha` (terms over the uninterpreted Premultiply methods). Decides the formula clauses over the reals; "
-              "does not decide rounding or [0,1] containment where no final clamp provides it. Round 5: every public conversion between a straight colour and its premultiplied form is premultiply / unpremultiply itself (C::from(PreAlpha<C>) for 9 types divides by alpha under the valid-divisor guard; PreAlpha constructors) (CONV)."),
+              "does not decide rounding or [0,1] containment where no final clamp provides it. Round 5: every public conversion between a straight colour and its premultiplied form is premultiply / unpremultiply itself (C::from(PreAlpha<C>) for 9 types divides by alpha under the valid-divisor guard; PreAlpha constructors) (CONV). Round 6: every Blend / Compose dispatcher has exactly one path, the forwarding one (no fast paths)."),
         design_ref="DESIGN.md §3 C08",
     ),
 }
@@ -166,7 +166,7 @@ CLAIMS["C04"] = dict(
           "map_*_in_place read and write the same place once inside ManuallyDrop. A generated witness crate lets rustc decide ~930 const "
           "assertions: size, alignment and offset_of every field in declaration order (alpha last) for all 26 ArrayCast structs x 5 "
           "component types, Alpha, PreAlpha, Packed. All 138 cast-trait methods forward to the function of the same direction, ownership "
-          "and container shape. Does not decide absence of UB under every input. Round 5: the 552 std conversion impls generated by macros/casting.rs (AsRef/AsMut/From/TryFrom between colours and arrays, slices, boxed arrays, integers) are thin forwarders to the cast function of their direction and ownership (CAST-STD); a by-value transmute_copy must move out of a ManuallyDrop (or forget) source (CAST-OWN)."),
+          "and container shape. Does not decide absence of UB under every input. Round 5: the 552 std conversion impls generated by macros/casting.rs (AsRef/AsMut/From/TryFrom between colours and arrays, slices, boxed arrays, integers) are thin forwarders to the cast function of their direction and ownership (CAST-STD); a by-value transmute_copy must move out of a ManuallyDrop (or forget) source (CAST-OWN). Round 6: CAST-OWN on the HIR (ptr::read as well as transmute_copy out of a by-value argument needs ManuallyDrop / forget); the 52 Luma <-> bare scalar casts go through the [T; 1] array cast of the same memory (CAST-LUMA)."),
     design_ref="DESIGN.md §3 C04",
 )
 
@@ -199,7 +199,7 @@ CLAIMS["C12"] = dict(
           "from_be_bytes/to_be_bytes; From<u32> uses ARGB for Rgb and RGBA for Rgba both ways. All 148 lines of svg_colors.txt have their "
           "constant and map entry (lower-case, unique, no others); named::from_str is the map lookup, and every early-out in front of it is evaluated "
           "on each of the 148 keys and must let all of them through. Not decided: the phf displacement tables (that lookup of a listed name "
-          "lands on its entry) in the quick tier. Round 5: the packing API around ComponentOrder (into_u32/from_u32, u16 forms, From between colours, Packed and bare integers) as terms over uninterpreted O::pack/unpack with the documented default orders (PACK-FWD); the Packed* aliases name the order they resolve to (ALIAS)."),
+          "lands on its entry) in the quick tier. Round 5: the packing API around ComponentOrder (into_u32/from_u32, u16 forms, From between colours, Packed and bare integers) as terms over uninterpreted O::pack/unpack with the documented default orders (PACK-FWD); the Packed* aliases name the order they resolve to (ALIAS). Round 6: from_hex hands its argument to the strict parser untouched (HEX-FWD)."),
     design_ref="DESIGN.md §3 C12",
 )
 
@@ -215,7 +215,7 @@ CLAIMS["C14"] = dict(
           "with one method, equal white points return the input - hence the source white maps onto the destination white. For xyz = k·white "
           "(all k>0, all white points) Lab gives a=b=0, Luv u=v=0, L*=100 at k=1, zero (a,b) gives zero chroma, Luma->Rgb fills three equal "
           "channels, a gray Luma lands on the white point's chromaticity in Yxy and on a multiple of the white point in Xyz; Oklab of the D65 literal is (1,0,0) within 5e-4 (computed residual 3.7e-5). Not decided: CAM16 J=100 for the adopted "
-          "white, floating-point residuals of round trips. Round 5: caller-supplied white points of adaptation_matrix reach the diagonal normalised to Y = 1 (ADAPT-NORM); the Lms aliases name their matrix."),
+          "white, floating-point residuals of round trips. Round 5: caller-supplied white points of adaptation_matrix reach the diagonal normalised to Y = 1 (ADAPT-NORM); the Lms aliases name their matrix. Round 6: matrices flowing into matrix_from_rgb / matrix_from_xyz have the right direction after their inversions (MATRIX-DIR); the two provided adaptation methods without a method argument agree on Bradford (ADAPT-DEFAULT)."),
     design_ref="DESIGN.md §3 C14",
 )
 
@@ -285,7 +285,7 @@ CLAIMS["C18"] = dict(
           "component f is colour i's f'; base cases build every component with the same constructor. All 104 collection impls on Alpha "
           "(get/set/push/pop/clear/drain/...) cover every alpha collection (free, unbounded alpha parameter): where one does not apply the call falls "
           "through Deref to the colour's method of the same name and skips the alpha. Decides the lockstep structure, a "
-          "necessary condition of the Vec<Color> equivalence, not the equivalence over histories itself; std's Vec/slice semantics trusted. Round 5: copied / cloned / as_refs / set of reference-component colours and hues are field-wise over every component (REFCOMP, 342 bodies); iterator / collection trait impls of struct-of-arrays types may only override methods that have a lockstep rule (nth, nth_back, last added)."),
+          "necessary condition of the Vec<Color> equivalence, not the equivalence over histories itself; std's Vec/slice semantics trusted. Round 5: copied / cloned / as_refs / set of reference-component colours and hues are field-wise over every component (REFCOMP, 342 bodies); iterator / collection trait impls of struct-of-arrays types may only override methods that have a lockstep rule (nth, nth_back, last added). Round 6: collect (from_iter) extends unconditionally."),
     design_ref="DESIGN.md §3 C18",
 )
 
@@ -301,7 +301,7 @@ CLAIMS["C19"] = dict(
           "of the converted ends and convert the sample back. All 26 Standard distributions stay inside the type's own IsWithinBounds box "
           "for all variates in [0,1) (interval evaluation incl. sqrt/cbrt), hues in [0,360). Cone/bicone/cylinder samplers use three "
           "independent variates through the inverse CDFs of the volume-uniform density (cbrt, bicone inverse, linear; sqrt for the radius), "
-          "invert_*.sample_* = id. Not decided: statistical uniformity, monotonicity of the transforms between the end points, rand itself. Round 5: the uniform samplers of the shaped spaces draw in CDF space — three distinct variates, radius = k·sqrt(d), height = k·F⁻¹(d), bounds = the CDFs of the two ends (VOL-UNIFORM): this decides the structural half of the volume-uniformity clause for sub-ranges."),
+          "invert_*.sample_* = id. Not decided: statistical uniformity, monotonicity of the transforms between the end points, rand itself. Round 5: the uniform samplers of the shaped spaces draw in CDF space — three distinct variates, radius = k·sqrt(d), height = k·F⁻¹(d), bounds = the CDFs of the two ends (VOL-UNIFORM): this decides the structural half of the volume-uniformity clause for sub-ranges. Round 6: a UniformSampler impl defines new / new_inclusive / sample only (an overridden sample_single is a second, unchecked sampling path)."),
     design_ref="DESIGN.md §3 C19",
 )
 
